@@ -12,6 +12,7 @@
 
 #include "vf_out.h"
 
+#include <ctime>
 #include <set>
 #include <string>
 #include <vector>
@@ -232,10 +233,112 @@ static void slot_reuse()
   g_distinct.insert(vf::fnv("slot-reuse"));
 }
 
+// (d) formatter sharing: the backend lets a logger without a formatter adopt the formatter of another logger whose options
+// compare equal. Every ordered pair of option sets that differ in exactly one field (or in none) x which of the two loggers
+// is seen first by the backend: each sink must get the line rendered with ITS logger's options.
+struct OptV
+{
+  char const* pattern;
+  char const* ts;
+  Timezone tz;
+  bool multi;
+};
+static std::string ref_time(char const* ts, Timezone tz, time_t t)
+{
+  tm ti{};
+  if (tz == Timezone::GmtTime)
+    gmtime_r(&t, &ti);
+  else
+    localtime_r(&t, &ti);
+  char b[64];
+  strftime(b, sizeof b, ts, &ti);
+  return b;
+}
+static std::vector<std::string> ref_lines(OptV const& o, std::string const& logger, std::vector<std::string> const& msg_lines)
+{
+  auto one = [&](std::string const& m)
+  {
+    std::string l = ref_time(o.ts, o.tz, 1718451898) + "|" + logger + "|" + m;
+    if (std::string(o.pattern).find("%(log_level)") != std::string::npos) l += "|INFO";
+    return l + "\n";
+  };
+  std::vector<std::string> r;
+  if (o.multi)
+    for (auto const& m : msg_lines) r.push_back(one(m));
+  else
+  {
+    std::string all;
+    for (size_t i = 0; i < msg_lines.size(); ++i) all += (i ? "\n" : "") + msg_lines[i];
+    r.push_back(one(all));
+  }
+  return r;
+}
+static void formatter_sharing()
+{
+  OptV const V[6] = {{"%(time)|%(logger)|%(message)", "%H:%M:%S", Timezone::GmtTime, false},
+                     {"%(time)|%(logger)|%(message)", "%H:%M:%S", Timezone::LocalTime, false},
+                     {"%(time)|%(logger)|%(message)", "%H:%M", Timezone::GmtTime, false},
+                     {"%(time)|%(logger)|%(message)|%(log_level)", "%H:%M:%S", Timezone::GmtTime, false},
+                     {"%(time)|%(logger)|%(message)", "%H:%M:%S", Timezone::GmtTime, true},
+                     {"%(time)|%(logger)|%(message)", "%H:%M:%S", Timezone::GmtTime, false}};
+  int pairno = 0;
+  for (int i = 0; i < 6; ++i)
+    for (int j = 0; j < 6; ++j)
+    {
+      if (i == j) continue;
+      for (int third = 0; third < 2; ++third)
+      {
+        ++pairno;
+        std::string const na = "sh" + std::to_string(pairno) + "a", nb = "sh" + std::to_string(pairno) + "b", nc = "sh" + std::to_string(pairno) + "c";
+        auto sa = std::make_shared<CapSink>(), sb = std::make_shared<CapSink>(), sc = std::make_shared<CapSink>();
+        auto mk = [&](std::string const& n, std::shared_ptr<CapSink> const& sk, OptV const& o)
+        { return Frontend::create_or_get_logger(n, {sk}, PatternFormatterOptions{o.pattern, o.ts, o.tz, o.multi}, ClockSourceType::User, &g_clock); };
+        Logger* la = mk(na, sa, V[i]);
+        Logger* lb = mk(nb, sb, V[j]);
+        // optional third logger with A's options, created last and used last (it may share with A, never with B)
+        Logger* lc = third ? mk(nc, sc, V[i]) : nullptr;
+        LOG_INFO(la, "x\ny");
+        for (int p = 0; p < 6; ++p) g_worker->poll_one();
+        LOG_INFO(lb, "x\ny");
+        for (int p = 0; p < 6; ++p) g_worker->poll_one();
+        LOG_INFO(la, "z");
+        if (lc) LOG_INFO(lc, "x\ny");
+        for (int p = 0; p < 8; ++p) g_worker->poll_one();
+        auto check = [&](char const* who, std::shared_ptr<CapSink> const& sk, OptV const& o, std::string const& n, bool second)
+        {
+          std::vector<std::string> want = ref_lines(o, n, {"x", "y"});
+          if (second)
+            for (auto const& l : ref_lines(o, n, {"z"})) want.push_back(l);
+          std::vector<std::string> got;
+          for (auto const& r : sk->got) got.push_back(r.statement);
+          ++g_eval;
+          g_distinct.insert(vf::fnv(std::string(who) + std::to_string(i) + "/" + std::to_string(j) + "/" + std::to_string(third)));
+          if (got != want)
+            report("line-not-formatted-with-the-loggers-own-options",
+                   "options #" + std::to_string(i) + " then #" + std::to_string(j) + (third ? " then #" + std::to_string(i) + " again" : "") + ", logger " + who,
+                   "got '" + (got.empty() ? std::string("<nothing>") : got[0]) + "' (" + std::to_string(got.size()) + " lines) expected '" + want[0] + "' (" + std::to_string(want.size()) + " lines)");
+        };
+        check("first", sa, V[i], na, true);
+        check("second", sb, V[j], nb, false);
+        if (lc) check("third", sc, V[i], nc, false);
+        Frontend::remove_logger(la);
+        Frontend::remove_logger(lb);
+        if (lc) Frontend::remove_logger(lc);
+        for (int p = 0; p < 6; ++p) g_worker->poll_one();
+      }
+    }
+}
+
 int main(int argc, char** argv)
 {
   vf::Args a{argc, argv};
   long const shard = a.geti("--shard", 0), nshards = a.geti("--nshards", 1);
+  bool const share = a.geti("--share", 0) != 0;
+  if (share)
+  {
+    setenv("TZ", "Asia/Kathmandu", 1); // UTC+5:45, no DST: local renderings differ from GMT in hours and minutes
+    tzset();
+  }
   g_worker = Backend::acquire_manual_backend_worker();
   BackendOptions bo;
   bo.error_notifier = [](std::string const&) {};
@@ -243,8 +346,13 @@ int main(int argc, char** argv)
   bo.transit_events_soft_limit = 1;
   bo.transit_events_hard_limit = static_cast<size_t>(a.geti("--hard", 1));
   g_worker->init(bo);
-  if (a.geti("--only-slots", 0) == 0) product(shard, nshards);
-  if (shard == 0) slot_reuse();
+  if (share)
+    formatter_sharing();
+  else
+  {
+    if (a.geti("--only-slots", 0) == 0) product(shard, nshards);
+    if (shard == 0) slot_reuse();
+  }
   vf::J("stat").u("evaluations", g_eval).u("executions", g_eval).u("distinct_nontrivial", g_distinct.size()).u("mismatches_total", g_viol).emit();
   vf::J("sample").s("case", "kind=1 level=ERROR logger_level=INFO s1(thr=WARNING,filters=1) s2(thr=CRITICAL,filters=0,override=1)").emit();
   vf::done();
